@@ -26,6 +26,8 @@ import (
 
 	"verifharness/drv"
 	"verifharness/emit"
+	"verifharness/opfix"
+	"verifharness/refstore"
 
 	httphelper "github.com/zitadel/oidc/v3/pkg/http"
 	"github.com/zitadel/oidc/v3/pkg/oidc"
@@ -595,6 +597,216 @@ type runner struct {
 	w   *emit.Writer
 	enc httphelper.Encoder
 	log *slog.Logger
+
+	// sequences: while fault != nil the case functions answer into a failing
+	// ResponseWriter and their input is queued instead of emitted; the next
+	// normally answered case is emitted as IAfter prev accepted (... case)
+	fault   *faultSpec
+	pending []pendingCall
+
+	// both routers over one storage whose CreateAuthRequest can be made to fail
+	routers  [2]http.Handler
+	rstore   *refstore.Store
+	rstorage *failingCreate
+}
+
+type faultSpec struct {
+	accept int  // body bytes taken before the failure
+	short  bool // the failing Write reports a short count with a nil error
+}
+
+type pendingCall struct {
+	in     string
+	accept int
+	kind   string
+}
+
+// failWriter: a ResponseWriter whose connection breaks after `left` body bytes.
+type failWriter struct {
+	*httptest.ResponseRecorder
+	left   int
+	short  bool
+	broken bool
+}
+
+func (f *failWriter) Write(b []byte) (int, error) {
+	if f.broken {
+		return 0, errors.New("write: broken pipe")
+	}
+	if len(b) <= f.left {
+		f.left -= len(b)
+		return f.ResponseRecorder.Write(b)
+	}
+	n := f.left
+	f.ResponseRecorder.Write(b[:n])
+	f.left, f.broken = 0, true
+	if f.short {
+		return n, nil
+	}
+	return n, errors.New("write: broken pipe")
+}
+
+// writer returns the ResponseWriter the library answers into for this call.
+func (x *runner) writer(rec *httptest.ResponseRecorder) http.ResponseWriter {
+	if x.fault != nil {
+		return &failWriter{ResponseRecorder: rec, left: x.fault.accept, short: x.fault.short}
+	}
+	return rec
+}
+
+// add emits a case, or queues it when it was answered into a failing writer.
+func (x *runner) add(c emit.Case) {
+	if x.fault != nil {
+		kind := "write_error"
+		if x.fault.short {
+			kind = "short_write"
+		}
+		x.pending = append(x.pending, pendingCall{c.Input, x.fault.accept, kind})
+		return
+	}
+	prev := "none"
+	for i := len(x.pending) - 1; i >= 0; i-- {
+		p := x.pending[i]
+		c.Input = emit.Ctor("IAfter", p.in, nTerm(uint64(p.accept)), c.Input)
+		prev = p.kind
+	}
+	if len(x.pending) > 1 {
+		prev = "several"
+	}
+	x.pending = nil
+	c.Tags = append(c.Tags, "prev="+prev)
+	x.w.Add(c)
+}
+
+// failingCreate: the reference storage, except that CreateAuthRequest fails
+// with err when err != nil (an error raised after all request validation).
+type failingCreate struct {
+	op.Storage
+	err error
+}
+
+func (s *failingCreate) CreateAuthRequest(ctx context.Context, r *oidc.AuthRequest, userID string) (op.AuthRequest, error) {
+	if s.err != nil {
+		return nil, s.err
+	}
+	return s.Storage.CreateAuthRequest(ctx, r, userID)
+}
+
+func (x *runner) setupRouters() error {
+	x.rstore = opfix.NewStd()
+	x.rstore.Clients["c11"] = &refstore.Client{ID: "c11", App: op.ApplicationTypeNative, Auth: oidc.AuthMethodNone, Dev: true,
+		RespTypes: []oidc.ResponseType{oidc.ResponseTypeCode, oidc.ResponseTypeIDToken, oidc.ResponseTypeIDTokenOnly},
+		Grants:    []oidc.GrantType{oidc.GrantTypeCode, oidc.GrantTypeImplicit}, ATType: op.AccessTokenTypeBearer}
+	x.rstorage = &failingCreate{Storage: x.rstore.AsStorage(true, true, true)}
+	key := [32]byte{11}
+	cfg := &op.Config{CryptoKey: key, CodeMethodS256: true, AuthMethodPost: true, GrantTypeRefreshToken: true, DefaultLogoutRedirectURI: "/logged-out"}
+	p, err := op.NewProvider(cfg, x.rstorage, op.StaticIssuer(opfix.Issuer), op.WithLogger(x.log))
+	if err != nil {
+		return err
+	}
+	x.routers[opfix.Provider] = p
+	x.routers[opfix.Legacy] = op.RegisterLegacyServer(op.NewLegacyServer(p, *op.DefaultEndpoints), op.AuthorizeCallbackHandler(p), op.WithFallbackLogger(x.log))
+	return nil
+}
+
+// caseRouter: GET /authorize on one of the two routers; validation passes, then
+// the storage refuses to create the auth request with an error of our choosing
+// (or, with prompt=none, the reference storage answers login_required).
+func (x *runner) caseRouter(router opfix.Router, redirect, shapeName, rtype, rmode, etype, desc, state string, promptNone bool, class string, extra ...string) {
+	x.rstore.Clients["c11"].Redirects = []string{redirect}
+	q := url.Values{"client_id": {"c11"}, "redirect_uri": {redirect}, "response_type": {rtype}, "scope": {"openid"}, "nonce": {"n"}}
+	if state != "" {
+		q.Set("state", state)
+	}
+	if rmode != "" {
+		q.Set("response_mode", rmode)
+	}
+	if promptNone {
+		q.Set("prompt", "none")
+		etype, desc = "login_required", ""
+		x.rstorage.err = nil
+	} else {
+		x.rstorage.err = fmt.Errorf("storage: %w", mkOidcError(etype, desc, "stale-state", "stale-session"))
+	}
+	req := httptest.NewRequest("GET", opfix.Issuer+"/authorize?"+q.Encode(), nil)
+	rec := httptest.NewRecorder()
+	w := x.writer(rec)
+	p := drv.Catch(func() { x.routers[router].ServeHTTP(w, req) })
+	x.rstorage.err = nil
+	obs := "OFail"
+	loc := rec.Header().Get("Location")
+	switch {
+	case p != "":
+		obs = "OPanic"
+	case rec.Code == http.StatusFound:
+		obs = urlObs(redirect, loc)
+	}
+	pt, _ := parsedTerm(redirect)
+	in := emit.Ctor("IErr", emit.Str(redirect), pt, emit.Str(rtype), emit.Str(rmode), emit.Str(etype), emit.Str(desc),
+		emit.Str(state), emit.Str(""), emit.Bool(false))
+	kind := "storage_oidc_error"
+	if promptNone {
+		kind = "prompt_none"
+	}
+	tags := append([]string{"api=GET/authorize", "router=" + router.String(), "mode=" + modeTag(rmode), "rtype=" + rtypeTag(rtype), "resp=error", "uri=" + shapeName,
+		"scheme=" + schemeClass(redirect), "val=" + class, "errkind=" + kind}, extra...)
+	x.add(emit.Case{Input: in, Observed: obs, Tags: tags,
+		Human: map[string]any{"router": router.String(), "request": req.URL.String(), "redirect_uri": redirect, "response_type": rtype, "response_mode": rmode,
+			"error": etype, "error_description": desc, "state": state, "status": rec.Code, "location": loc}})
+}
+
+// caseTryErr: op.TryErrorRedirect (LegacyServer's copy of AuthRequestError) with
+// the parsed *oidc.AuthRequest, as LegacyServer.Authorize calls it; the Redirect
+// it returns is written with http.Redirect as Redirect.writeOut does.
+func (x *runner) caseTryErr(redirect, shapeName, rtype, rmode, etype, desc, state string, plain, disabled bool, class string, extra ...string) {
+	ar := &oidc.AuthRequest{RedirectURI: redirect, ResponseType: oidc.ResponseType(rtype), ResponseMode: oidc.ResponseMode(rmode), State: state, ClientID: "client"}
+	var err error
+	switch {
+	case disabled:
+		e := oidc.ErrInvalidRequestRedirectURI()
+		e.Description = desc
+		etype = "invalid_request"
+		err = e
+	case plain:
+		err = errors.New(desc)
+		etype = "server_error"
+	default:
+		err = fmt.Errorf("wrapped: %w", mkOidcError(etype, desc, "stale-state", "stale-session"))
+	}
+	rec := httptest.NewRecorder()
+	w := x.writer(rec)
+	req := httptest.NewRequest("GET", "/authorize", nil)
+	var red *op.Redirect
+	var rerr error
+	p := drv.Catch(func() {
+		red, rerr = op.TryErrorRedirect(context.Background(), ar, err, x.enc, x.log)
+		if rerr == nil && red != nil {
+			http.Redirect(w, req, red.URL, http.StatusFound)
+		}
+	})
+	obs := "OFail"
+	loc := rec.Header().Get("Location")
+	switch {
+	case p != "":
+		obs = "OPanic"
+	case rerr == nil && red != nil:
+		obs = urlObs(redirect, loc)
+	}
+	pt, _ := parsedTerm(redirect)
+	in := emit.Ctor("IErr", emit.Str(redirect), pt, emit.Str(rtype), emit.Str(rmode), emit.Str(etype), emit.Str(desc),
+		emit.Str(state), emit.Str(""), emit.Bool(disabled))
+	kind := "oidc"
+	if plain {
+		kind = "plain"
+	}
+	if disabled {
+		kind = "redirect_disabled"
+	}
+	tags := append([]string{"api=TryErrorRedirect", "mode=" + modeTag(rmode), "rtype=" + rtypeTag(rtype), "resp=error", "uri=" + shapeName,
+		"scheme=" + schemeClass(redirect), "val=" + class, "errkind=" + kind}, extra...)
+	x.add(emit.Case{Input: in, Observed: obs, Tags: tags,
+		Human: map[string]any{"redirect_uri": redirect, "response_type": rtype, "response_mode": rmode, "error": etype, "error_description": desc,
+			"state": state, "location": loc}})
 }
 
 func (x *runner) caseURL(redirect, shapeName, rtype, rmode string, rg respGen, class string, extra ...string) {
@@ -614,14 +826,15 @@ func (x *runner) caseURL(redirect, shapeName, rtype, rmode string, rg respGen, c
 	in := emit.Ctor("IUrl", emit.Str(redirect), pt, emit.Str(rtype), emit.Str(rmode), rg.term)
 	tags := append([]string{"api=AuthResponseURL", "mode=" + modeTag(rmode), "rtype=" + rtypeTag(rtype), "resp=" + rg.tag,
 		"uri=" + shapeName, "scheme=" + schemeClass(redirect), "val=" + class}, extra...)
-	x.w.Add(emit.Case{Input: in, Observed: obs, Tags: tags,
+	x.add(emit.Case{Input: in, Observed: obs, Tags: tags,
 		Human: map[string]any{"redirect_uri": redirect, "response_type": rtype, "response_mode": rmode, "response": rg.human, "result": loc}})
 }
 
 func (x *runner) caseForm(redirect, shapeName string, rg respGen, class string, extra ...string) {
 	rec := httptest.NewRecorder()
 	var err error
-	p := drv.Catch(func() { err = op.AuthResponseFormPost(rec, redirect, rg.goVal, x.enc) })
+	w := x.writer(rec)
+	p := drv.Catch(func() { err = op.AuthResponseFormPost(w, redirect, rg.goVal, x.enc) })
 	obs := "OFail"
 	body := rec.Body.String()
 	switch {
@@ -633,7 +846,7 @@ func (x *runner) caseForm(redirect, shapeName string, rg respGen, class string, 
 	in := emit.Ctor("IForm", emit.Str(redirect), rg.term)
 	tags := append([]string{"api=AuthResponseFormPost", "mode=form_post", "resp=" + rg.tag, "uri=" + shapeName,
 		"scheme=" + schemeClass(redirect), "val=" + class}, extra...)
-	x.w.Add(emit.Case{Input: in, Observed: obs, Tags: tags,
+	x.add(emit.Case{Input: in, Observed: obs, Tags: tags,
 		Human: map[string]any{"redirect_uri": redirect, "response": rg.human, "body": body}})
 }
 
@@ -644,7 +857,8 @@ func (x *runner) caseCode(redirect, shapeName, rtype, rmode, code, state, sessio
 	req := httptest.NewRequest("GET", "/authorize/callback?id=req-1", nil)
 	az := stubAuthorizer{enc: x.enc, crypto: stubCrypto{code}, log: x.log}
 	ar := fullReq{redirect: redirect, state: state, session: session, rtype: oidc.ResponseType(rtype), rmode: oidc.ResponseMode(rmode)}
-	p := drv.Catch(func() { op.AuthResponseCode(rec, req, ar, az) })
+	w := x.writer(rec)
+	p := drv.Catch(func() { op.AuthResponseCode(w, req, ar, az) })
 	obs := "OFail"
 	loc := rec.Header().Get("Location")
 	switch {
@@ -663,7 +877,7 @@ func (x *runner) caseCode(redirect, shapeName, rtype, rmode, code, state, sessio
 	}
 	tags := append([]string{"api=AuthResponseCode", "mode=" + mt, "rtype=" + rtypeTag(rtype), "resp=code", "uri=" + shapeName,
 		"scheme=" + schemeClass(redirect), "val=" + class}, extra...)
-	x.w.Add(emit.Case{Input: in, Observed: obs, Tags: tags,
+	x.add(emit.Case{Input: in, Observed: obs, Tags: tags,
 		Human: map[string]any{"redirect_uri": redirect, "response_type": rtype, "response_mode": rmode, "code": code, "state": state,
 			"session_state": session, "status": rec.Code, "location": loc, "body": rec.Body.String()}})
 }
@@ -693,7 +907,8 @@ func (x *runner) caseErr(redirect, shapeName, rtype, rmode string, full bool, et
 		// State / SessionState preset on the error are overwritten by the request's
 		err = fmt.Errorf("wrapped: %w", mkOidcError(etype, desc, "stale-state", "stale-session"))
 	}
-	p := drv.Catch(func() { op.AuthRequestError(rec, req, ar, err, az) })
+	w := x.writer(rec)
+	p := drv.Catch(func() { op.AuthRequestError(w, req, ar, err, az) })
 	obs := "OFail"
 	loc := rec.Header().Get("Location")
 	switch {
@@ -714,7 +929,7 @@ func (x *runner) caseErr(redirect, shapeName, rtype, rmode string, full bool, et
 	}
 	tags := append([]string{"api=AuthRequestError", "mode=" + modeTag(rmode), "rtype=" + rtypeTag(rtype), "resp=error", "uri=" + shapeName,
 		"scheme=" + schemeClass(redirect), "val=" + class, "errkind=" + kind, fmt.Sprintf("fullreq=%v", full)}, extra...)
-	x.w.Add(emit.Case{Input: in, Observed: obs, Tags: tags,
+	x.add(emit.Case{Input: in, Observed: obs, Tags: tags,
 		Human: map[string]any{"redirect_uri": redirect, "response_type": rtype, "response_mode": rmode, "error": etype, "error_description": desc,
 			"state": state, "session_state": session, "status": rec.Code, "location": loc}})
 }
@@ -733,6 +948,19 @@ func main() {
 		g.long = 600
 	}
 	x := &runner{g: g, w: w, enc: oidc.NewEncoder(), log: slog.New(slog.NewTextHandler(io.Discard, nil))}
+	// a broken tree must not hang the check: give up (exit 3 = driver failed) after a generous bound
+	limit := 3 * time.Minute
+	if !cfg.Quick {
+		limit = 30 * time.Minute
+	}
+	time.AfterFunc(limit, func() {
+		fmt.Fprintln(os.Stderr, "c11 driver: time limit exceeded (a library call does not return?)")
+		os.Exit(3)
+	})
+	if err := x.setupRouters(); err != nil {
+		fmt.Fprintln(os.Stderr, "cannot build the provider:", err)
+		os.Exit(2)
+	}
 
 	// -- fixed cases first: the defects this check has seen (F08, Fxx-C11-1, F23) and
 	//    the rows a reader expects
@@ -751,12 +979,23 @@ func main() {
 	x.caseForm(plainURI, "plain", respGen{&codeResponse{"c1", "st", "sess"}, emit.Ctor("RCode", emit.Str("c1"), emit.Str("st"), emit.Str("sess")), "code", nil}, "classic", "fixed=form_session_state")
 	x.caseCode("com.example.app:/cb", "custom", "code", "form_post", "c1", "st", "", "classic", "fixed=F23")
 	x.caseCode("https://rp.example.com/cb#state%3Dst", "fragment", "code", "fragment", "", "st", "", "classic", "fixed=rawfragment")
+	// error after validation, non-default response mode, both routers
+	for _, rt := range []opfix.Router{opfix.Provider, opfix.Legacy} {
+		x.caseRouter(rt, plainURI, "plain", "code", "fragment", "", "", "a+b", true, "classic", "fixed=router_error_mode")
+		x.caseRouter(rt, plainURI, "plain", "id_token token", "query", "access_denied", "no", "a+b", false, "classic", "fixed=router_error_mode")
+	}
+	// a form_post response whose write broke, then another user's form_post response
+	x.fault = &faultSpec{accept: 200}
+	x.caseCode(plainURI, "plain", "code", "form_post", "code-of-user-1", "state-of-user-1", "", "classic")
+	x.fault = nil
+	x.caseCode(plainURI, "plain", "code", "form_post", "code-of-user-2", "state-of-user-2", "", "classic", "fixed=after_failed_write")
 
-	for w.Len() < n {
-		i := w.Len()
+	// one generated call; kinds 0..9.  poison = it will be answered into a failing
+	// writer, so only kinds that take a ResponseWriter are drawn.
+	call := func(kind int) {
 		rtype := drv.Pick(r, rtypes)
 		rmode := drv.Pick(r, rmodes)
-		switch i % 8 {
+		switch kind {
 		case 0, 1: // AuthResponseURL, success responses
 			var rg respGen
 			var class string
@@ -784,21 +1023,54 @@ func main() {
 		case 5: // AuthResponseCode end to end
 			vs, class := g.pickVals(3)
 			sh := g.uriShape(true)
+			if r.Chance(1, 3) {
+				rmode = "form_post"
+			}
 			if rmode == "form_post" && r.Bool() {
 				sh = g.formURI()
 			}
 			x.caseCode(sh.uri, sh.name, rtype, rmode, vs[0], vs[1], vs[2], class)
-		default: // AuthRequestError
+		case 6: // AuthRequestError
 			vs, class := g.pickVals(3)
 			sh := g.uriShape(true)
 			if r.Chance(1, 12) {
 				sh = drv.Pick(r, []shape{{"empty", ""}, {"unparseable", "http://[::1"}, {"unparseable", "https://rp.example.com/%zz"}})
 			}
 			x.caseErr(sh.uri, sh.name, rtype, rmode, r.Chance(3, 4), drv.Pick(r, errTypes), vs[0], vs[1], vs[2], r.Chance(1, 4), r.Chance(1, 12), class)
+		case 7: // TryErrorRedirect with the parsed request, as LegacyServer calls it
+			vs, class := g.pickVals(2)
+			sh := g.uriShape(true)
+			if r.Chance(1, 12) {
+				sh = drv.Pick(r, []shape{{"empty", ""}, {"unparseable", "http://[::1"}, {"unparseable", "https://rp.example.com/%zz"}})
+			}
+			x.caseTryErr(sh.uri, sh.name, rtype, rmode, drv.Pick(r, errTypes), vs[0], vs[1], r.Chance(1, 4), r.Chance(1, 12), class)
+		default: // 8, 9: GET /authorize on the Provider router / the LegacyServer router, error after validation
+			vs, class := g.pickVals(2)
+			sh := g.uriShape(true)
+			router := opfix.Provider
+			if kind == 9 {
+				router = opfix.Legacy
+			}
+			x.caseRouter(router, sh.uri, sh.name, drv.Pick(r, []string{"code", "id_token token", "id_token"}), rmode,
+				drv.Pick(r, errTypes), vs[0], vs[1], r.Chance(1, 5), class)
 		}
 	}
+	kinds := []int{0, 1, 2, 3, 4, 5, 6, 7, 8, 9, 3, 5, 8, 9}
+	for it := 0; w.Len() < n; it++ {
+		kind := kinds[it%len(kinds)]
+		// sequences: every third call is preceded by one or two calls whose response
+		// write fails part-way (their outcome is discarded, see IAfter)
+		if it%3 == 1 {
+			for k, m := 0, 1+r.IntN(2); k < m; k++ {
+				x.fault = &faultSpec{accept: drv.Pick(r, []int{0, 1, 17, 100, 200, 260, 400}), short: r.Chance(1, 3)}
+				call(drv.Pick(r, []int{3, 4, 5, 5, 3, 6, 7, 8, 9}))
+				x.fault = nil
+			}
+		}
+		call(kind)
+	}
 	err := w.Close(emit.Meta{Property: "C11", Tier: cfg.Tier, Seed: cfg.Seed,
-		Rule: "calls of AuthResponseURL / AuthResponseFormPost / AuthResponseCode / AuthRequestError: parameter values from 14 classes (alnum, std-base64, ASCII punctuation, a 0..255 byte sweep, multi-byte runes, ill-formed UTF-8, control bytes, percent sequences, markup, random bytes, long, empty, classic, url-safe) x ~50 redirect URI shapes (plain, with query incl. malformed/colliding/raw, with fragment, custom scheme, opaque, relative, unparseable, hostile strings for the form) x 9 response_mode strings x 7 response_type strings; a block of fixed cases replays the known defects first. Non-trivial = something was delivered (path class != 0); distinct = distinct input term.",
+		Rule: "calls of AuthResponseURL / AuthResponseFormPost / AuthResponseCode / AuthRequestError / TryErrorRedirect (with the parsed *oidc.AuthRequest) and GET /authorize on BOTH routers with a storage that fails CreateAuthRequest after validation; every third call is preceded by 1-2 calls answered into an http.ResponseWriter that breaks after 0..400 body bytes (error or short write), emitted as IAfter; parameter values from 14 classes (alnum, std-base64, ASCII punctuation, a 0..255 byte sweep, multi-byte runes, ill-formed UTF-8, control bytes, percent sequences, markup, random bytes, long, empty, classic, url-safe) x ~50 redirect URI shapes (plain, with query incl. malformed/colliding/raw, with fragment, custom scheme, opaque, relative, unparseable, hostile strings for the form) x 9 response_mode strings x 7 response_type strings; a block of fixed cases replays the known defects first. Non-trivial = something was delivered (path class != 0); distinct = distinct input term.",
 		Notes: []string{"user agent for URLs: strings.Cut at '#' and '?', url.ParseQuery on the raw query and raw fragment", "user agent for forms: UTF-8 decode (ill-formed byte -> U+FFFD) then golang.org/x/net/html tokenizer; clean = token stream equals the template skeleton"},
 	})
 	if err != nil {
